@@ -111,8 +111,11 @@ class Program:
         self.enums.setdefault("RawEntryMut", ["Occupied", "Vacant"])        # hashbrown
         self.enums.setdefault("Entry", ["Occupied", "Vacant"])
         self.enums.setdefault("Cow", ["Borrowed", "Owned"])
+        self.enums.setdefault("ControlFlow", ["Continue", "Break"])
 
     def add(self, b):
+        if b.name in self.bodies and b.kind == "fn":
+            return          # `const fn`s are dumped twice (const-eval and runtime MIR): keep the first
         self.bodies[b.name] = b
         last = strip_generics(b.name).split("::")[-1]
         self.by_last.setdefault(last, []).append(b)
